@@ -32,6 +32,17 @@ ASSUMPTIONS = [
 SITES = ["lc.*"]
 
 
+
+# the status-sensor text of every lifecycle state, transcribed from the audited commit (GeckoSpaState.to_string)
+_TEXTS = {"CONNECTED": "Connected", "CONNECTING": "Connecting...", "ERROR_RF_FAULT": "Lost contact with spa (RFERR)",
+          "ERROR_PING_MISSED": "Lost contact with in.touch2 module", "ERROR_NEEDS_ATTENTION": "Needs attention, check logs",
+          "LOCATING_SPAS": "Searching for spas...", "LOCATED_SPAS": "Choose spa",
+          "ERROR_SPA_NOT_FOUND": "Cannot find spa, check logs"}
+
+
+def _text(state):
+    return _TEXTS.get(state.name, f"{state}")
+
 def _mod():
     import geckolib.async_spa_manager as M
     return M
@@ -121,7 +132,7 @@ def _prestate(sx, man, rec):
     man._facade = FakeFacade() if has_facade else None
     man._spa_descriptors = [None, [], ["d"]][has_desc]
     man._status_sensor = M.GeckoAsyncSpaMan.StatusSensor(man)
-    man._status_sensor._state = S.to_string(st)
+    man._status_sensor._state = _text(st)
     if sensors:
         man._spa.signal = sx.int_("signal", 0, 255)
         man._spa.channel = sx.int_("channel", 0, 255)
@@ -187,7 +198,7 @@ def step(sx):
             sx.check(s_at != S.CONNECTED, "lc.state-left-connected-before-teardown-is-announced", lambda: f"--{ev.name}")
         if e == E.CLIENT_FACADE_IS_READY:
             sx.check(s_at == S.CONNECTED and f_at is not None, "lc.connected-before-ready-is-announced")
-        sx.check(text == S.to_string(s_at), "lc.status-text-matches-state-at-every-delivery", lambda: f"{text} vs {s_at}")
+        sx.check(text == _text(s_at), "lc.status-text-matches-state-at-every-delivery", lambda: f"{text} vs {s_at}")
     if sensors and ev == E.RUNNING_SPA_PACK_REFRESHED:
         from sx.core import Ite
         sig = man._spa.signal
@@ -223,7 +234,7 @@ def reset(sx):
     for (e, s_at, f_at, text) in tear:
         sx.check(f_at is not None, "lc.teardown-only-while-a-facade-exists", lambda: f"reset from {st.name}")
     for (e, s_at, f_at, text) in rec:
-        sx.check(text == S.to_string(s_at), "lc.status-text-matches-state-at-every-delivery")
+        sx.check(text == _text(s_at), "lc.status-text-matches-state-at-every-delivery")
 
 
 DEEP = [False]
@@ -437,7 +448,7 @@ def connect(sx):
     sx.check(names.count(E.CLIENT_FACADE_TEARDOWN) == 0, "lc.no-teardown-during-connect")
     sx.check((raised is not None) == (ending in (3, 4) or (completed and facade_raises)), "lc.connect-propagates-failure")
     for (e, s_at, f_at, text) in rec:
-        sx.check(text == S.to_string(s_at), "lc.status-text-matches-state-at-every-delivery")
+        sx.check(text == _text(s_at), "lc.status-text-matches-state-at-every-delivery")
     if built:
         i = names.index(E.CLIENT_FACADE_IS_READY)
         sx.check(rec[[x[0] for x in rec].index(E.CLIENT_FACADE_IS_READY)][2] is man.facade, "lc.facade-present-when-ready-is-announced")
